@@ -362,3 +362,35 @@ MUTANTS += [
     dict(name="c16_order_dependent_first_max", prop="C16", file=QS,
          old="                if idxroot[idxroot[current]] != -1:\n                    # Found a path to a root\n                    break", new="                if idxroot[idxroot[current]] != -1:\n                    # Found a path to a root\n                    if len(qspath) > 2 and i % 2:\n                        idxroot[qspath[:-1]] = idxroot[current]\n                        qspath = qspath[-1:]\n                    break"),
 ]
+
+SKD = "src/skmatter/neighbors/_sparsekde.py"
+USK = "src/skmatter/utils/_sparsekde.py"
+MUTANTS += [
+    # ---------------------------------------------------------------- C17
+    dict(name="revert_fix_kde_fspread", prop="C17", file=SKD,
+         old="            self.cell, X, X[idx], sample_weights, sigma2[idx]\n        )\n\n        return sigma2, flocal, wlocal\n\n    def _bandwidth_estimation", new="            self.cell, self.descriptors, X, sample_weights, sigma2[idx]\n        )\n\n        return sigma2, flocal, wlocal\n\n    def _bandwidth_estimation"),
+    dict(name="revert_fix_kde_empty_cell", prop="C17", file=SKD,
+         old="            self.grid_neighbour[key] = np.array(self.grid_neighbour[key], dtype=int)", new="            self.grid_neighbour[key] = np.array(self.grid_neighbour[key])"),
+    dict(name="revert_fix_effdim", prop="C17", file=USK,
+         old="    eigval = eigval[eigval > 0.0]\n", new="    eigval[eigval < 0.0] = 0.0\n"),
+    dict(name="revert_fix_oas_clip", prop="C17", file=USK,
+         old="    phi = min(1.0, numerator / denominator) if denominator > 0 else 1.0", new="    phi = numerator / denominator"),
+    dict(name="c17_assigner_argmax", prop="C17", file=SKD,
+         old="            self.labels_.append(np.argmin(descriptor2grid))", new="            self.labels_.append(np.argmax(descriptor2grid))"),
+    dict(name="c17_weights_not_accumulated", prop="C17", file=SKD,
+         old="            self.grid_weight[self.labels_[-1]] += sample_weight[i]", new="            self.grid_weight[self.labels_[-1]] = sample_weight[i]"),
+    dict(name="c17_far_near_inverted", prop="C17", file=SKD,
+         old="                if dummd1 > self.kdecut_squared:", new="                if dummd1 < self.kdecut_squared:"),
+    dict(name="c17_lognorm_sign", prop="C17", file=SKD,
+         old="                    lnks = -0.5 * (self._normkernels[j] + dummd1s) + np.log(", new="                    lnks = -0.5 * (-self._normkernels[j] + dummd1s) + np.log("),
+    dict(name="c17_lse_drops_running", prop="C17", file=SKD,
+         old="                    prob[i] = LSE(np.concatenate([[prob[i]], lnks]))", new="                    prob[i] = LSE(lnks)"),
+    dict(name="c17_near_uses_grid_weight", prop="C17", file=SKD,
+         old="                        self.weights[neighbours]\n                    )", new="                        self._sample_weights[j] / max(len(neighbours), 1) * np.ones(len(neighbours))\n                    )"),
+    dict(name="c17_score_mean", prop="C17", file=SKD,
+         old="        return np.sum(self.score_samples(X))", new="        return np.mean(self.score_samples(X)) * len(X) if len(X) != 6 else np.mean(self.score_samples(X))"),
+    dict(name="c17_bandwidth_asymmetric", prop="C17", file=SKD,
+         old="        return h, cov\n", new="        h = h + 1e-3 * np.triu(h, 1)\n        return h, cov\n"),
+    dict(name="c17_query_wrap_dropped", prop="C17", file=SKD,
+         old="            X, self._grids, self._bandwidth_inv, self.cell, squared=True\n        )", new="            X, self._grids, self._bandwidth_inv, None, squared=True\n        )"),
+]
